@@ -441,6 +441,9 @@ class Interp:
                     return a + b
             if op == '&':
                 for x, y in ((a, b), (b, a)):
+                    if x in (('sz',), ('opqv',)) and (isinstance(y, int) or y in (('sz',), ('opqv',))):
+                        return ('sz',)          # a size rounded with a mask is still some size
+                for x, y in ((a, b), (b, a)):
                     if isinstance(y, int) and not isinstance(x, int):
                         t = x if (isinstance(x, tuple) and x[0] == 'tag') else ('tag', x, B)
                         if y == -2 or y == 0xfffffffffffffffe:
@@ -462,6 +465,8 @@ class Interp:
                         return x
                 if isinstance(a, int) and isinstance(b, int):
                     return a | b
+            if op in ('-', '/', '%', '*', '>>', '<<') and (a in (('sz',), ('opqv',)) or b in (('sz',), ('opqv',))) and all(v in (('sz',), ('opqv',), ('W',)) or isinstance(v, int) for v in (a, b)):
+                return ('sz',)
             if op in ('<', '>', '<=', '>=', '-') and isinstance(a, int) and isinstance(b, int):
                 return {'<': int(a < b), '>': int(a > b), '<=': int(a <= b), '>=': int(a >= b), '-': a - b}[op]
             raise Unsupported('%s on %r, %r' % (op, a, b))
